@@ -270,6 +270,9 @@ _POISON_ZERO = r"if n == 0 \{\s*if (.*?) \{\s*self\.%spoisoned = true;\s*\}\s*re
 _POISON_ERR = r"Err\(e\) => \{\s*if (.*?) \{\s*self\.%spoisoned = true;\s*\}\s*return %sErr\(e\)%s;"
 CONDS = [
     C("cTagInRange", "macros/src/items/tag.rs", r"if (\*tag [<>=!]+ #var_count) \{\s*Ok\(\(\)\)\s*\} else \{\s*Err\(Error \{\s*kind: ErrorKind::InvalidEnumTag,\s*pos: 0,", [(r"\*tag", "tag"), (r"#var_count", "count")], ["tag", "count"]),
+    # `Buffer::skip` / `Buffer::advance`: the window assertions; the `skip` site exists only while the reset of an emptied window follows it
+    C("cIoSkipAssert", "io/src/common/io.rs", r"self\.window\.start \+= count;\s*assert!\((.*?)\);\s*if self\.window\.is_empty\(\) \{\s*self\.window = 0\.\.0;\s*\}", [(r"self\.window\.start", "wstart"), (r"self\.window\.end", "wend")], ["wstart", "wend"]),
+    C("cIoAdvanceAssert", "io/src/common/io.rs", r"self\.window\.end \+= count;\s*assert!\((.*?)\);", [(r"self\.window\.end", "wend"), (r"self\.capacity\(\)", "cap")], ["wend", "cap"]),
     C("cIoWriteLoop", "io/src/blocking/io.rs", r"while (pos [<>=!]+ count) \{", [], ["pos", "count"]),
     C("cIoWriteZero", "io/src/blocking/io.rs", r"Ok\(n\) => \{\s*if (n [<>=!]+ 0) \{", [], ["n"]),
     C("cIoPoisonZero", "io/src/blocking/io.rs", _POISON_ZERO % ("", "", ""), [], ["pos"]),
